@@ -1310,6 +1310,51 @@ pub fn c19big(a: &Args) -> Report {
             (p.to_string(), line)
         })
         .collect();
+    // whole definitions whose expansion could recurse without end (a stack overflow cannot be
+    // caught in-process): (source, must be rejected)
+    let risky: Vec<(String, bool)> = {
+        let mut v: Vec<(String, bool)> = vec![];
+        for (items, generics, rej) in [
+            ("type T = Vec<T>", "<T>", true),
+            ("type T = T", "<T>", true),
+            ("type T = Vec<U>, type U = Box<T>", "<T, U>", true),
+            ("type U = Box<T>, type T = Vec<U>", "<T, U>", true),
+            ("type T = (u8, [T; 2])", "<T>", true),
+            ("type T = fn(T) -> T", "<T>", true),
+            ("type T = &'a T, lifetime = 'a", "<'a, T>", true),
+            ("type T = Vec<u8>", "<T>", false),
+            ("type T = Vec<Vec<Vec<u8>>>", "<T>", false),
+            ("type T = self::T", "<T>", false),
+        ] {
+            let second = if generics.contains('U') { ", #[token(\"b\")] B(U)" } else { "" };
+            v.push((format!("#[logos({items})] enum Tok{generics} {{ #[regex(\"a\", cb)] A(T){second} }}"), rej));
+            v.push((format!("#[logos({items})] enum Tok{generics} {{ #[token(\"a\")] A(T){second}, #[regex(\"c+\")] C }}"), rej));
+        }
+        for body in ["(?&s)", "a(?&s)", "(?&t)"] {
+            v.push((format!("#[logos(subpattern s = \"{body}\")] enum T {{ #[regex(\"x(?&s)\")] A }}"), true));
+        }
+        v.push(("#[logos(subpattern s = \"(?&t)\", subpattern t = \"(?&s)\")] enum T { #[regex(\"x(?&s)\")] A }".into(), true));
+        v
+    };
+    let risky_out: Vec<String> = risky
+        .par_iter()
+        .map(|(src, _)| {
+            let out = std::process::Command::new("bash").arg("-c").arg("ulimit -v 4000000; exec timeout 60 \"$0\" c19big-child --file \"$1\"").arg(&exe).arg(src).output().expect("spawn");
+            let text = String::from_utf8_lossy(&out.stdout).to_string();
+            text.lines().find(|l| l.starts_with("OUTCOME")).map(|l| l.to_string()).unwrap_or_else(|| format!("DIED status {:?} {}", out.status.code(), String::from_utf8_lossy(&out.stderr).lines().filter(|l| !l.trim().is_empty()).take(2).collect::<Vec<_>>().join(" | ")))
+        })
+        .collect();
+    for ((src, rej), line) in risky.iter().zip(risky_out) {
+        rep.count("evaluations", 1);
+        rep.count("distinct_nontrivial", 1);
+        if line.starts_with("OUTCOME panic") {
+            rep.violations.push(viol("PANIC", "c19big", src.clone(), format!("generate() panicked: {line}"), json!({"src": src})));
+        } else if line.starts_with("DIED") {
+            rep.violations.push(viol("CRASH", "c19big", src.clone(), format!("the derive kills its process instead of reporting a diagnostic: {line}"), json!({"src": src})));
+        } else if *rej && line.starts_with("OUTCOME accepted") {
+            rep.violations.push(viol("MUSTREJECT-ACCEPTED", "c19big", src.clone(), "a definition that refers to itself is accepted".into(), json!({"src": src})));
+        }
+    }
     for (p, line) in results {
         rep.count("evaluations", 1);
         rep.count("distinct_nontrivial", 1);
